@@ -127,7 +127,10 @@ impl SimpleMdnsResponder {
                                 scope.socket_address()
                             };
 
-                            sender_socket.send_to(&reply, reply_addr).await?;
+                            // a reply that cannot be sent (e.g. too large for one datagram) must not end the loop
+                            if let Err(err) = sender_socket.send_to(&reply, reply_addr).await {
+                                log::error!("Failed to send reply {err}");
+                            }
                         }
                         None => {
                             continue;
